@@ -5,6 +5,7 @@ package main
 import (
 	"fmt"
 	"go/token"
+	"go/types"
 	"strings"
 
 	"golang.org/x/tools/go/ssa"
@@ -46,6 +47,8 @@ func runC02(w *World, r *Report) {
 	}
 	c07Preflight(w, r)
 	r.Remap = nil
+	c02Applied(w, r)
+	c02UninstallDeletes(w, r)
 }
 
 func c02DiffArgs(w *World, r *Report) {
@@ -559,4 +562,151 @@ func c02Uninstall(w *World, r *Report) {
 		}
 	}
 	r.Check(okSrc, "C02/UNINSTALL-PARTITION", "deleteRelease/source", w.InstrPos(fc), "the resources to delete are built from the delete list only", "the resources to delete are not built from the delete list only (kept resources would be deleted)")
+}
+
+// c02Applied: a revision is marked deployed only after the cluster was brought to its manifest: on every
+// path to the "deployed" status write the operation has called the client's Create/Update on the
+// manifest resources (apart from the path on which the resource list is empty). Update is also what
+// repairs out-of-band edits and deletions, so "nothing changed in the manifest" is no reason to skip it.
+func c02Applied(w *World, r *Report) {
+	r.Rule("C02/APPLIED", "install, upgrade and rollback mark the new revision deployed only after the client's Create/Update on the manifest resources was called on that path (or the resource list is empty)", 3)
+	ef := NewEffects(w)
+	n := 0
+	for _, fn := range w.FuncsIn("pkg/action") {
+		if fn.Parent() != nil || isNewFunc(fn) || strings.HasSuffix(w.FileOf(fn), "_test.go") {
+			continue
+		}
+		var deps []ssa.Instruction
+		for _, rel := range releaseValues(fn) {
+			for _, s := range statusStores(fn, rel) {
+				if s.Status == "deployed" {
+					deps = append(deps, s.Instr)
+				}
+			}
+		}
+		if len(deps) == 0 {
+			continue
+		}
+		var applies []ssa.Instruction
+		lists := map[ssa.Value]bool{}
+		for _, c := range callInstrs(fn) {
+			if ef.Leaf(c.Common()) != WCluster {
+				continue
+			}
+			switch c.Common().Method.Name() {
+			case "Create", "Update", "UpdateThreeWayMerge":
+				applies = append(applies, c)
+				for _, a := range c.Common().Args {
+					if _, isSlice := a.Type().Underlying().(*types.Slice); isSlice {
+						lists[a] = true
+					}
+				}
+			}
+		}
+		if len(applies) == 0 {
+			continue // not an operation that applies a manifest (uninstall, release testing, …)
+		}
+		n++
+		r.Fn(FuncName(fn))
+		g := FullGraph(fn)
+		empty, _ := emptyEdges(fn, func(v ssa.Value) bool { return lists[v] })
+		seen := map[string]int{}
+		for _, d := range deps {
+			if !g.Reachable()[d.Block()] {
+				continue
+			}
+			key := FuncName(fn) + "/deployed"
+			seen[key]++
+			if seen[key] > 1 {
+				key = fmt.Sprintf("%s#%d", key, seen[key])
+			}
+			ex, _ := g.PathExists(entryPos(fn), posOf(d), avoidInstrs(applies...).withEdges(empty...))
+			r.Check(!ex, "C02/APPLIED", key, w.InstrPos(d), "the deployed status is written only after the client's Create/Update", "the revision can be marked deployed on a path that never called the client's Create/Update on its resources: the cluster is not brought to the manifest (drift from out-of-band edits or deletions stays) although the operation reports success")
+		}
+	}
+	if n == 0 {
+		r.Unk("C02/APPLIED", "no-site", "-", "no operation writes the deployed status after a cluster apply")
+	}
+}
+
+// c02UninstallDeletes: uninstall reports success only after it asked the cluster to delete the
+// release's resources — or after it found the record in status "uninstalled" (a previous uninstall
+// --keep-history has already deleted them). No other state of the record is proof that nothing is left.
+func c02UninstallDeletes(w *World, r *Report) {
+	r.Rule("C02/UNINSTALL-DELETES", "every success return of a real uninstall lies behind the cluster delete of the release's resources or behind the test that the record's status is exactly uninstalled", 1)
+	fn := w.Fn("pkg/action", "Uninstall.Run")
+	obj := w.Named(actionPkg, "Uninstall")
+	if fn == nil || obj == nil {
+		r.Unk("C02/UNINSTALL-DELETES", "anchor", "-", "Uninstall.Run not found")
+		return
+	}
+	r.Fn(FuncName(fn))
+	ef := NewEffects(w)
+	spec := NewSpec(w, obj, "DryRun=false", map[string]aval{"DryRun": boolV(false)})
+	g := spec.Graph(fn)
+	var dels []ssa.Instruction
+	for _, c := range callInstrs(fn) {
+		if ef.CallEffect(c.Common())&WCluster != 0 {
+			// hook execution also writes to the cluster: only calls that can delete manifest resources count
+			if f, _ := calleeOf(c.Common()); f != nil && inHelm(f) {
+				reaches := false
+				for _, s := range ef.EffectSites(f, WCluster) {
+					if n := s.Instr.Common().Method; n != nil && strings.HasPrefix(n.Name(), "Delete") {
+						reaches = true
+					}
+				}
+				if !reaches {
+					continue
+				}
+			}
+			dels = append(dels, c)
+		}
+	}
+	var isUninstalled []Edge
+	for _, b := range fn.Blocks {
+		for _, in := range b.Instrs {
+			bo, ok := in.(*ssa.BinOp)
+			if !ok || (bo.Op != token.EQL && bo.Op != token.NEQ) {
+				continue
+			}
+			var other ssa.Value
+			if s, ok := constString(bo.X); ok && s == "uninstalled" {
+				other = bo.Y
+			} else if s, ok := constString(bo.Y); ok && s == "uninstalled" {
+				other = bo.X
+			}
+			ld, isLd := other.(*ssa.UnOp)
+			if other == nil || !isLd {
+				continue
+			}
+			if fa, ok := ld.X.(*ssa.FieldAddr); !ok || !isFieldOf(fa, relPkg, "Info", "Status") {
+				continue
+			}
+			for _, e := range condEdges(bo) {
+				if e.truth == (bo.Op == token.EQL) {
+					isUninstalled = append(isUninstalled, e.Edge)
+				}
+			}
+		}
+	}
+	// no record at all (the history lookup failed; --ignore-not-found): nothing to delete
+	var noRecord []Edge
+	for _, c := range callInstrs(fn) {
+		if f, _ := calleeOf(c.Common()); f != nil && FuncName(f) == "(*pkg/storage.Storage).History" {
+			_, bad := nilTestEdges(errResult(c))
+			noRecord = append(noRecord, bad...)
+		}
+	}
+	n := 0
+	for i, rp := range g.classifyReturns() {
+		if rp.Class != RetSuccess || !g.Reachable()[rp.Ret.Block()] {
+			continue
+		}
+		n++
+		ex, _ := g.PathExists(entryPos(fn), retPos(rp), avoidInstrs(dels...).withEdges(isUninstalled...).withEdges(noRecord...))
+		r.Check(!ex && len(dels) > 0, "C02/UNINSTALL-DELETES", fmt.Sprintf("return#%d", i), w.InstrPos(rp.Ret), "success only after the cluster delete or for a record already in status uninstalled", "uninstall can report success (and purge the history) without deleting the release's resources although the record is not in status uninstalled: after an interrupted uninstall the leftover resources stay in the cluster with no release owning them")
+	}
+	if n == 0 {
+		r.Unk("C02/UNINSTALL-DELETES", "no-success", w.Pos(fn.Pos()), "no success return in a real uninstall")
+	}
 }
